@@ -160,6 +160,51 @@ def run_lines(binary, lines, timeout=600, env=None):
 
 
 # ----------------------------------------------------------------------------------------- Check
+
+def _strip_coq_comments(t):
+    out, depth, i, instr = [], 0, 0, False
+    while i < len(t):
+        if not instr and t.startswith('(*', i):
+            depth += 1; i += 2; continue
+        if not instr and depth and t.startswith('*)', i):
+            depth -= 1; i += 2; continue
+        c = t[i]
+        if depth == 0:
+            if c == '"':
+                instr = not instr
+            out.append(c)
+        elif c == '\n':
+            out.append(c)
+        i += 1
+    return ''.join(out)
+
+
+def hygiene():
+    """Scan every .v of the development (the copied NanoCore files included) for what the brief forbids: declared axioms,
+    unfinished proofs, switched-off kernel checks, section-less Variable/Hypothesis.  Returns a list of 'file:line: text'."""
+    bad = []
+    root = os.path.join(COQ, 'NV')
+    for dp, _, fs in os.walk(root):
+        for f in fs:
+            if not f.endswith('.v'):
+                continue
+            path = os.path.join(dp, f)
+            t = _strip_coq_comments(open(path, encoding='utf-8', errors='replace').read())
+            depth = 0
+            for ln, line in enumerate(t.split('\n'), 1):
+                s = line.strip()
+                if re.match(r'Section\s+\w+\s*\.', s):
+                    depth += 1
+                elif re.match(r'End\s+\w+\s*\.', s) and depth > 0:
+                    depth -= 1        # (Module ... End pairs never nest inside our sections)
+                if re.search(r'(^|\s)(Axiom|Axioms|Parameter|Parameters|Conjecture|Admitted\s*\.|Admit\s+Obligations|Abort\s*\.)(\s|$)', s) \
+                        or re.search(r'(^|[\s;\[(])(admit|give_up)\s*[.;\]|)]', s) \
+                        or re.search(r'Unset\s+(Guard Checking|Positivity Checking|Universe Checking)|bypass_check|Type In Type|type-in-type|impredicative-set', s) \
+                        or (depth == 0 and re.match(r'(Local\s+|Global\s+)?(Variable|Variables|Hypothesis|Hypotheses|Context)\b', s)):
+                    bad.append('%s:%d: %s' % (os.path.relpath(path, COQ), ln, s[:120]))
+    return bad
+
+
 class Check:
     def __init__(self, pid, tier='quick', seed=None, replay=None):
         self.pid = pid
@@ -219,6 +264,9 @@ class Check:
         with Lock():
             ok, log = coq_make(['NV/Props/Properties_%s.vo' % pid] + list(extra_targets))
             self.proof['log'] = log[-6000:]
+            hy = hygiene()
+            if hy:
+                self.proof['broken'] += ['hygiene: ' + h for h in hy[:5]]
             if ok:
                 self.proof['discharged'] = len(thms)
                 ok2, ass = print_assumptions(pid, [n for n, k, _ in thms])
